@@ -94,6 +94,10 @@ func WriteNdJson(env *dsl.Environment, options packaging.CppCodegenOptions) erro
 			self.Visit(t.ResolvedDefinition)
 		case *dsl.GeneralizedType:
 			if t.Cases.IsUnion() {
+				// Unions nested in the cases (inside vectors or maps) come first: the enclosing
+				// converter instantiates their adl_serializer, which must be specialized before that.
+				self.VisitChildren(node)
+
 				// Convert the union cases to their u types so we don't generate
 				// duplicate `adl_serializer` specializations for the same type.
 				t = dsl.ToUnionOfUnderlyingTypes(t)
@@ -106,6 +110,7 @@ func WriteNdJson(env *dsl.Environment, options packaging.CppCodegenOptions) erro
 					unionsBySyntax[typeSyntax] = t
 					writeUnionConverters(w, scalarType)
 				}
+				return
 			}
 		}
 
